@@ -223,9 +223,13 @@ def run(ctx, rep):
     rep.floor("R4", 4)
     check_explicit_bond_symbols(ctx, rep)
     check_no_stale_acceptance(ctx, rep)
+    # R8: "every SMILES the encoder accepts with strict=True": the acceptance test is count > capacity for every atom,
+    # capacity being the property that subtracts explicit hydrogens (the comparator rule of C06/Q1)
+    from rules.C06 import check_acceptance
+    check_acceptance(ctx, rep, "R8")
 
 
-def check_explicit_bond_symbols(ctx, rep):
+def check_explicit_bond_symbols(ctx, rep, RULE="R6"):
     """R6: the parser gives a bond the aromatic order 1.5 only on paths where no bond symbol was written for it --
     for a ring closure, on neither of the two ring-digit tokens.  (An explicit symbol must decide the order: the
     statement quantifies over 'explicit or implicit bond symbols' on either end of a ring closure.)"""
@@ -284,11 +288,11 @@ def check_explicit_bond_symbols(ctx, rep):
                     probs.append("order 1.5 is given although a bond symbol may have been written (%s)" % _short(k))
             agg.setdefault(tuple(sorted(set(probs))), node)
         for probs, node in agg.items():
-            rep.ob("R6", not probs, node, g, construct="aromatic order 1.5 in %s" % g.name, how="only on paths where every bond symbol of the bond is None",
+            rep.ob(RULE, not probs, node, g, construct="aromatic order 1.5 in %s" % g.name, how="only on paths where every bond symbol of the bond is None",
                    witness="; ".join(probs) or None, nontrivial=True, key="arom-implicit/%s/%s" % (g.name, "ok" if not probs else "explicit-symbol-ignored"))
     if not n_arom:
         raise AnalysisError("no aromatic (1.5) bond order is introduced by the parser functions %s" % [g.name for g in funcs])
-    rep.floor("R6", 2)
+    rep.floor(RULE, 2)
 
 
 def _short(k):
@@ -314,4 +318,8 @@ def check_no_stale_acceptance(ctx, rep):
             o.key = o.key.replace("/G6/", "/R7/")
             rep.counts["R7"] = rep.counts.get("R7", 0) + 1
     rep.counts.pop("G6", None)
-    rep.floor("R7", 1)
+    from rules.shared import check_table_owned, check_history_independence
+    check_table_owned(ctx, rep, "R7")
+    # ... and nothing derived from a table survives in module state (symbol caches stay functions of the symbol alone)
+    check_history_independence(ctx, rep, "R7")
+    rep.floor("R7", 4)
